@@ -161,10 +161,10 @@ func vpCheckLayout(r []byte) {
 func vpAnswers(resp uint16) uint16 { return resp - 1 }
 
 //vp:property C01 C16 C03 C10
-//vp:set bodymax 10 24
+//vp:set bodymax 10 14
 //vp:set budget 40 600
 //vp:set maxalloc 40 40
-//vp:bounds ONE packet (type: all 2^16 values; body: every length 0..bodymax with symbolic bytes; inner length fields symbolic up to carried+4) from EVERY protocol phase 0..5, every capability setting, every callback present/absent and accepting/refusing, dial succeeding/failing; histories of any length follow by induction over the loop invariant (paper argument)
+//vp:bounds ONE packet (type: all 2^16 values; body: every length 0..bodymax (10 quick, 14 thorough) with symbolic bytes; inner length fields symbolic up to carried+4) from EVERY protocol phase 0..5, every capability setting, every callback present/absent and accepting/refusing, dial succeeding/failing; histories of any length follow by induction over the loop invariant (paper argument)
 //vp:assume TokenAuth implies a cookie callback is wired (checked separately on main())
 //vp:assume declared inner lengths (cookie, client name, server name, data) exceed the carried bytes by at most the allocation bound
 //vp:reach accept-handshake accept-tunnel accept-auth accept-channel relay close refused out-of-order unknown
